@@ -335,7 +335,25 @@ type outcome struct {
 var errInjected = fmt.Errorf("injected read error")
 
 // Check serves the request and applies the oracle.
+// Check serves the request; a request that does not return is served a second
+// time on a fresh mux before it is called wedged (the clause "never loops without
+// consuming input" can only be observed through a clock: 10 s, twice, for a
+// request that normally takes well under a millisecond). A single slow run is
+// inconclusive (exit 2), never a verdict.
 func Check(c Case) ([]evid.Violation, outcome) {
+	vs, o, wedged := checkOnce(c)
+	if !wedged {
+		return vs, o
+	}
+	if _, _, again := checkOnce(c); !again {
+		fmt.Fprintf(os.Stderr, "WATCHDOG: request did not return within 10s once, but did on a second run: %+v\n", c)
+		os.Exit(2)
+	}
+	o.stage = "wedged"
+	return []evid.Violation{evid.V("wedged", "wedged", "the request did not return within 10 s (twice, on fresh muxes): the serving goroutine loops or blocks without consuming input")}, o
+}
+
+func checkOnce(c Case) ([]evid.Violation, outcome, bool) {
 	hs := &hstate{}
 	mux := newMux(c, hs)
 	hdr := http.Header{}
@@ -407,10 +425,8 @@ func Check(c Case) ([]evid.Violation, outcome) {
 	}()
 	select {
 	case <-finished:
-	case <-time.After(20 * time.Second):
-		// watchdog: a genuine hang is reported as broken (exit 2), never as a verdict
-		fmt.Fprintf(os.Stderr, "WATCHDOG: request did not return within 20s: %+v\n", c)
-		os.Exit(2)
+	case <-time.After(10 * time.Second):
+		return nil, outcome{}, true
 	}
 	o.status, o.hijacked, o.reads, o.recv = rec.Code, hw.hijacked, rd.Reads, hs.recv
 	switch {
@@ -424,10 +440,10 @@ func Check(c Case) ([]evid.Violation, outcome) {
 		o.stage = "entry"
 	}
 	if pnc != nil {
-		return []evid.Violation{evid.V("panic", "panic@"+drive.TopFrame(stack), "panic: %v\n%s", pnc, firstLines(stack, 14))}, o
+		return []evid.Violation{evid.V("panic", "panic@"+drive.TopFrame(stack), "panic: %v\n%s", pnc, firstLines(stack, 14))}, o, false
 	}
 	if !o.hijacked && (o.status < 100 || o.status > 599) {
-		return []evid.Violation{evid.V("malformed-response", "status-out-of-range", "status %d", o.status)}, o
+		return []evid.Violation{evid.V("malformed-response", "status-out-of-range", "status %d", o.status)}, o, false
 	}
 	if o.hijacked {
 		select { // let the drain goroutine see the last bytes
@@ -439,16 +455,16 @@ func Check(c Case) ([]evid.Violation, outcome) {
 		out := append([]byte{}, hw.out.Bytes()...)
 		hw.outMu.Unlock()
 		if msg := checkWSOutput(out); msg != "" {
-			return []evid.Violation{evid.V("malformed-response", "ws-malformed-frame", "the server sent a malformed WebSocket frame: %s", msg)}, o
+			return []evid.Violation{evid.V("malformed-response", "ws-malformed-frame", "the server sent a malformed WebSocket frame: %s", msg)}, o, false
 		}
 	}
 	if o.reads > 16+4*len(c.Body) {
-		return []evid.Violation{evid.V("spin", "spin-reads", "%d Read calls for a %d-byte body", o.reads, len(c.Body))}, o
+		return []evid.Violation{evid.V("spin", "spin-reads", "%d Read calls for a %d-byte body", o.reads, len(c.Body))}, o, false
 	}
 	if o.recv > len(c.Body)+1 {
-		return []evid.Violation{evid.V("spin", "spin-messages", "handler received %d messages from a %d-byte body: the stream never ends", o.recv, len(c.Body))}, o
+		return []evid.Violation{evid.V("spin", "spin-messages", "handler received %d messages from a %d-byte body: the stream never ends", o.recv, len(c.Body))}, o, false
 	}
-	return nil, o
+	return nil, o, false
 }
 
 func firstLines(s string, n int) string {
@@ -571,6 +587,21 @@ func wsFrames(t *rapid.T) []byte {
 	return buf.Bytes()
 }
 
+// listElems are list elements for Accept-like headers: well formed, and every
+// kind of separator / quoted / comment / empty element a hostile client may put
+// where a token is expected.
+var listElems = []string{"application/json", "application/protobuf", "*/*", "text/*", "gzip", "identity", "br", "*", "", " ", ";q=0.5", "q=1", "(comment) text/html", "\"x\"", "=", "/", ";", "a/b;q", "a/b;q=", "a/b;q=2", "a/b;q=0.5;x=\"y", "\x00", "é", "a//b", "gzip;q=0"}
+
+func genListHeader(t *rapid.T) [2]string {
+	name := rapid.SampledFrom([]string{"Accept", "Accept", "Accept-Encoding", "Grpc-Accept-Encoding", "Content-Type", "Content-Encoding"}).Draw(t, "lhName")
+	n := rapid.IntRange(1, 4).Draw(t, "lhN")
+	var parts []string
+	for i := 0; i < n; i++ {
+		parts = append(parts, rapid.SampledFrom(listElems).Draw(t, "lhElem"))
+	}
+	return [2]string{name, strings.Join(parts, rapid.SampledFrom([]string{", ", ",", " , ", ";"}).Draw(t, "lhSep"))}
+}
+
 func genPath(t *rapid.T) string {
 	switch rapid.IntRange(0, 9).Draw(t, "pathKind") {
 	case 0, 1, 2:
@@ -669,7 +700,11 @@ func genValidish(t *rapid.T) Case {
 	for i, n := 0, rapid.IntRange(0, 2).Draw(t, "nperturb"); i < n; i++ {
 		switch rapid.IntRange(0, 5).Draw(t, "perturb") {
 		case 0:
-			c.Headers = append(c.Headers, rapid.SampledFrom(headerPool).Draw(t, "phdr"))
+			if rapid.IntRange(0, 2).Draw(t, "plist") == 0 {
+				c.Headers = append(c.Headers, genListHeader(t))
+			} else {
+				c.Headers = append(c.Headers, rapid.SampledFrom(headerPool).Draw(t, "phdr"))
+			}
 		case 1:
 			if c.Entry == "http" || c.Entry == "ws" {
 				c.Query = rapid.SampledFrom(hostileQueries).Draw(t, "pquery")
@@ -726,7 +761,11 @@ func genCase(t *rapid.T) Case {
 	}
 	nh := rapid.IntRange(0, 4).Draw(t, "nh")
 	for i := 0; i < nh; i++ {
-		c.Headers = append(c.Headers, rapid.SampledFrom(headerPool).Draw(t, "hdr"))
+		if rapid.IntRange(0, 3).Draw(t, "hlist") == 0 {
+			c.Headers = append(c.Headers, genListHeader(t))
+		} else {
+			c.Headers = append(c.Headers, rapid.SampledFrom(headerPool).Draw(t, "hdr"))
+		}
 	}
 	switch c.Entry {
 	case "grpc", "grpcweb":
